@@ -173,6 +173,9 @@ def run_shard(params, which=None):
                 dry = mvccload.run_schedule(params['seed'] + 1, k0, 'pct', sh.scratch, pct_depth=1, packer=packer, collect_locs=True)
                 locs = sorted((k + (o,)) for k, n in (dry['locs'] or {}).items() for o in range(1, min(n, 3) + 1))
                 random.Random(params['seed']).shuffle(locs)
+                # statements of the storage layers first (and first occurrences before later ones): a quick run then parks a thread
+                # at every one of them, the connection-level statements follow as time allows
+                locs.sort(key=lambda l: (l[1] == 'Connection.py', l[3]))
                 sweep[kind] = locs[params['shard']::params['nshards']]
                 sweep_pos[kind] = 0
                 sh.count('locations_seen', len(locs))
